@@ -18,6 +18,7 @@ RULE = (
     "distances) or encoding one grid to 'ugrid' / 'exodus' / 'scrip' (to_xarray or encode_as), optionally through a NetCDF "
     "file. After every encode: the result re-opened with ux.open_grid has the same faces (order kept for UGRID/SCRIP, multiset "
     "for Exodus); for UGRID every variable / coordinate / dimension named by the topology variable exists; the dataset can be "
+    "Also tiny / micro patches (cells down to 2e-6 degrees, judged by the tolerance-free count of distinct corner nodes per face) and node tables with unused (orphan) entries. "
     "written to NetCDF and read back. Non-trivial = a mixed-size grid is encoded, or an encode follows a materialisation, or a "
     "second grid is encoded after a first; distinct by case hash."
 )
